@@ -451,6 +451,6 @@ def eval_cli(case):
 def parts(tier):
     t = tier == 'thorough'
     return [
-        Part('api', eval_api, strategy=strategy, examples=50000 if t else 2000),
-        Part('cli', eval_cli, strategy=cli_strategy, examples=600 if t else 48),
+        Part('api', eval_api, strategy=strategy, examples=250000 if t else 2000),
+        Part('cli', eval_cli, strategy=cli_strategy, examples=3000 if t else 48),
     ]
